@@ -13,9 +13,11 @@ import (
 	"sort"
 	"strings"
 	"sync"
+	"sync/atomic"
 	"time"
 
 	jose "github.com/go-jose/go-jose/v4"
+	"golang.org/x/oauth2"
 
 	"verif/harness/modelstore"
 	"verif/harness/opdrv"
@@ -86,6 +88,40 @@ type isoWorld struct {
 	// a second provider: own storage, own signing key - whose key id happens to equal provider A's
 	provB  *op.Provider
 	storeB *modelstore.Store
+	// one provider serving two tenants (issuer from the request host), with an ID token issued under each tenant's issuer
+	provDyn http.Handler
+	hintOf  map[string]string
+	// one relying party with PKCE whose login handler is shared by every browser
+	rpLogin http.Handler
+}
+
+const isoTenantA, isoTenantB = "tenant-a.example.test", "tenant-b.example.test"
+
+// isoHint signs an ID token of client cw under the issuer of tenant host with the provider's signing key.
+func isoHint(host string) string {
+	k := iso.store.Signing
+	signer, err := jose.NewSigner(jose.SigningKey{Algorithm: k.Alg, Key: &jose.JSONWebKey{Key: k.Priv, KeyID: k.KID}}, nil)
+	if err != nil {
+		panic(err)
+	}
+	now := time.Now()
+	b, _ := json.Marshal(map[string]any{"iss": "https://" + host, "sub": "u1", "aud": []string{"cw"}, "azp": "cw", "iat": now.Unix() - 5, "exp": now.Add(12 * time.Hour).Unix()})
+	jws, err := signer.Sign(b)
+	if err != nil {
+		panic(err)
+	}
+	tok, _ := jws.CompactSerialize()
+	return tok
+}
+
+// logoutAt: end_session at tenant `host` with the ID token issued under tenant `hintHost`: "accepted" (redirect) | "refused"
+func logoutAt(host, hintHost string) string {
+	req := httptest.NewRequest(http.MethodGet, "https://"+host+"/end_session?id_token_hint="+url.QueryEscape(iso.hintOf[hintHost]), nil)
+	r := opdrv.Serve(iso.provDyn, req)
+	if r.Status >= 300 && r.Status < 400 {
+		return "accepted"
+	}
+	return "refused"
 }
 
 // traceInterceptor marks the response with its name, in the order the interceptors run.
@@ -199,6 +235,20 @@ func isoSetup() {
 	if _, iso.provB, err = opdrv.BuildProvider(iso.storeB, opdrv.DefaultCfg("P")); err != nil {
 		panic(err)
 	}
+	dcfg := opdrv.DefaultCfg("P")
+	dcfg.Dyn = true
+	if iso.provDyn, _, err = opdrv.BuildProvider(iso.store, dcfg); err != nil {
+		panic(err)
+	}
+	iso.hintOf = map[string]string{isoTenantA: isoHint(isoTenantA), isoTenantB: isoHint(isoTenantB)}
+	ch := httphelper.NewCookieHandler([]byte("0123456789abcdef0123456789abcdef"), []byte("fedcba9876543210fedcba9876543210"), httphelper.WithUnsecure())
+	party, err := rp.NewRelyingPartyOAuth(&oauth2.Config{ClientID: "cid", ClientSecret: "secret", RedirectURL: "https://rp.example.test/cb", Scopes: []string{"openid"},
+		Endpoint: oauth2.Endpoint{AuthURL: isoOP + "/authorize", TokenURL: isoOP + "/token"}}, rp.WithCookieHandler(ch), rp.WithPKCE(ch), rp.WithHTTPClient(iso.caller))
+	if err != nil {
+		panic(err)
+	}
+	var nState atomic.Int64
+	iso.rpLogin = rp.AuthURLHandler(func() string { return fmt.Sprintf("state-%d", nState.Add(1)) }, party, rp.WithURLParam("tenant", "x"))
 	iso.claims0 = append([]string(nil), op.DefaultSupportedClaims...)
 	iso.scopes0 = append([]string(nil), op.DefaultSupportedScopes...)
 	iso.pristine = isoSnapshot()
@@ -290,13 +340,17 @@ func isoSnapshot() map[string]string {
 	}
 	s["callerInterceptorChain"] = strings.Join(names, ",")
 	s["routerA2.interceptorOrder"] = traceOf(iso.chainRouter)
+	s["dynProvider.tenantA.ownHint"] = logoutAt(isoTenantA, isoTenantA)
+	s["dynProvider.tenantB.ownHint"] = logoutAt(isoTenantB, isoTenantB)
+	s["dynProvider.tenantB.foreignHint"] = logoutAt(isoTenantB, isoTenantA)
 	s["providerA.tokenSignature"] = signsWithOwnKey(iso.provA)
 	s["providerB.tokenSignature"] = signsWithOwnKey(iso.provB)
 	return s
 }
 
 // isoHealthy: cells with a value that must hold at any time, whatever ran before
-var isoHealthy = map[string]string{"providerA.tokenSignature": "ownKeys", "providerB.tokenSignature": "ownKeys",
+var isoHealthy = map[string]string{"dynProvider.tenantA.ownHint": "accepted", "dynProvider.tenantB.ownHint": "accepted", "dynProvider.tenantB.foreignHint": "refused",
+	"providerA.tokenSignature": "ownKeys", "providerB.tokenSignature": "ownKeys",
 	"callerInterceptorChain": "first,second,third", "routerA2.interceptorOrder": "first>second>third"}
 
 func isoRestore() {
@@ -375,6 +429,14 @@ func isoExec(name string) {
 		if err == nil {
 			traceOf(p)
 		}
+	case name == "dynProvider.logout(tenantA)":
+		logoutAt(isoTenantA, isoTenantA)
+	case name == "dynProvider.logout(tenantB)":
+		logoutAt(isoTenantB, isoTenantB)
+	case name == "rp.AuthURLHandler.serve(pkce)":
+		// a browser starts a login at the shared handler: the challenge in the redirect belongs to the verifier in ITS cookie (checked by C17); here: isolation
+		rec := httptest.NewRecorder()
+		iso.rpLogin.ServeHTTP(rec, httptest.NewRequest(http.MethodGet, "https://rp.example.test/login", nil))
 	case name == "providerA.issueJWT":
 		signsWithOwnKey(iso.provA)
 	case name == "providerB.issueJWT":
